@@ -127,6 +127,7 @@ type Unit struct {
 	assertsSeen map[string]bool
 	nonNil      map[string]bool
 	axiomsUsed  []string
+	alloc0      string
 }
 
 func (u *Unit) fresh(prefix string) string {
@@ -309,6 +310,7 @@ type loopInfo struct {
 	body    map[int]bool
 	backs   []*ssa.BasicBlock
 	ordinal int
+	precise []preciseTarget
 }
 
 type retInfo struct {
@@ -736,6 +738,18 @@ func (fr *frame) valOf(v ssa.Value) *Val {
 	case *ssa.Global:
 		name := "G:" + c.Pkg.Pkg.Path() + "." + c.Name()
 		et := c.Type().Underlying().(*types.Pointer).Elem()
+		if _, seen := u.initHeap[name]; !seen && !fr.pure && u.alloc0 != "" {
+			// the initial value of a package variable is well-formed and was allocated before the call
+			tmp := &State{h: map[string]string{}, alloc: u.alloc0}
+			init := u.heapGet(tmp, name, u.sorts.sortOf(et))
+			fr.assumeWF(et, init, tmp, "true")
+			path := c.Pkg.Pkg.Path()
+			if _, isIface := et.Underlying().(*types.Interface); isIface && !(path == modPath || strings.HasPrefix(path, modPath+"/")) &&
+				(strings.HasPrefix(c.Name(), "Err") || c.Name() == "EOF") {
+				// exported sentinel errors of dependencies are initialised non-nil and never reassigned
+				u.assume("true", fmt.Sprintf("(not (= (i-tag %s) 0))", init))
+			}
+		}
 		return &Val{lv: &LVal{kind: lvCell, name: name, rootT: et, typ: et}}
 	case *ssa.Function:
 		return &Val{t: smtInt(int64(u.eng.funcID(c))), fn: c}
